@@ -89,7 +89,7 @@ CHECKS = {
         text="Distance helpers complete for bits<=7 (8 thorough); queue wrap model-checked; streams > 2^7 pictures (quick) and > 2048/5000 (thorough) decoded and compared.", note="Long streams use small pictures.", design="4 (C22)"),
     "C26": dict(category="exploration",
         technique="trace validation against Observe.tla: reported SSE vs SSE recomputed from an independent decode of each packet and the regenerated source",
-        text="Three values per packet compared as 32-bit numbers; reference pictures judged before non-reference pictures.", note="8-bit only; source regenerated from the shared generator.", design="4 (C26)"),
+        text="Three values per packet compared as 32-bit numbers; reference pictures judged before non-reference pictures.", note="8- and 10-bit input; source regenerated from the shared generator.", design="4 (C26)"),
     "C27": dict(category="model_checking",
         technique="Packetize.tla (same output for every completion order, progress) + trace validation against Observe.tla of the same stream retrieved under different pacing policies",
         text="Every policy that completes must give the same packets/recon; drain-after-each-send must complete.", note="Policies sampled (each, every:k, none, random with delays).", design="4 (C27)"),
